@@ -25,7 +25,9 @@ REQUIRED_THEOREMS = ["Gv.Props.C14." + n for n in [
     "maxCharSite_order_independent", "maxCharSite_is_argmax",
     "countProfile_panic_iff", "countProfile_eq_spec", "profileCount_eq_spec", "profileCountsAt_error_iff",
     # the counter loops with a count profile (three slices: unique / new / both) = the naive recounts, all inputs
-    "numGapsUniqueProf_eq_spec", "numMutationsUniqueProf_eq_spec", "numGapsUniqueProf_first_eq_nil"]] + [
+    "numGapsUniqueProf_eq_spec", "numMutationsUniqueProf_eq_spec", "numGapsUniqueProf_first_eq_nil",
+    # Frameshifts / Stops (Model/FrameStats.lean): panic / error conditions, shape, soundness of the coordinates
+    "frameshifts_panic_iff", "frameshifts_shape", "frameshiftsRow_bounds", "stops_err_iff", "stops_panic_iff"]] + [
     # Pssm over the reals (Model/Pssm.lean, generic in the numeric type; Mathlib-importing module)
     "Gv.Props.C14Pssm." + n for n in [
     "pssm_no_panic", "pssm_empty_is_error", "pssm_err_iff", "pssm_err_iff_all", "pssm_shape", "pssm_counts", "pssm_freq", "pssm_freq_column_sum",
@@ -53,8 +55,19 @@ LEVEL_NOTE = ("Trusted: Lean kernel; harness/oracle/driver. Float-valued statist
 TECHNIQUE = "Lean 4 proof (order-independence for all permutations, list induction) + differential correspondence with repeated calls"
 RULE = ("alignments of 1..6 rows x 1..6 columns over small alphabets with ties for the most frequent character, all-gap and all-N "
         "columns, mixed case, specials; all site indices in [-1, L]; both ignore options; every map-ordered call repeated 200 "
-        "times; non-trivial = a column with a tie or a boundary index")
-PARTIAL = ["Entropy: the occurrence counts, the summation order and the error/NaN cases are proved (entropy_eq_spec); the float sum itself "
+        "times; non-trivial = a column with a tie or a boundary index; Frameshifts / Stops: reference / row pairs (and further rows) with "
+        "gap runs of every length 0..7 in either row at the start, inside, adjacent and at the end, stop codons of the three genetic "
+        "codes in and out of frame, lower case, U, IUPAC codes, unknown codes, no / one row")
+PARTIAL = ["Frameshifts / Stops (the statistics goalign phasent logs; Model/FrameStats.lean mirrors the two loops, Spec/FrameStats.lean "
+           "states the documented meaning with prefix counts: longest dephased part between two in-phase points, first stop codon "
+           "of the residues of the row / of its complete part): proved are the panic / error conditions, the shape and the soundness "
+           "of the reported interval (zero value or more than one residue, End within the residues of the row); model = documented "
+           "meaning is NOT proved: the oracle evaluates Spec/FrameStats on every answer of the implementation (strata frameshifts*, "
+           "stops*). Two deviations of Stops from its documentation are kept out of the generator (candidate defects, DESIGN 11.4): "
+           "the column loop stops at Length()-2, so a first stop codon whose last base lies in the last two columns is not reported "
+           "(`stops 1 r:GAAG,q:TAGT 1 0` answers -1), and `phase` / `started` are declared outside the loop over the rows, so with the "
+           "option and more than two rows a later row is read from its first residue instead of its complete part",
+           "Entropy: the occurrence counts, the summation order and the error/NaN cases are proved (entropy_eq_spec); the float sum itself "
            "(math.Log) is compared with tolerance 1e-12, rounding is not modelled; AvgAllelesPerSite: the two integer counters are "
            "proved, the float64 quotient is compared with tolerance",
            "Pssm: theorems are over the reals (Props/C14Pssm.lean); float rounding and the last place of math.Log are not modelled: "
@@ -359,8 +372,111 @@ def _gen_large(rng, tier):
         yield Case("charstatssite", [1, rs, L - 1], True, "charstatssite-large")
 
 
+# --- Frameshifts / Stops (the statistics goalign phasent logs) ---------------------------------------------------
+
+FS_CODONS = ["TAA", "TAG", "TGA", "AGA", "AGG", "taa", "UAA", "uag", "tGa", "TAR", "TRA", "NNN", "ATG", "GCC", "AAA", "ctg",
+             "TGG", "CAU", "ggy", "ATA"]
+FS_STOPS = {0: {"TAA", "TAG", "TGA"}, 1: {"TAA", "TAG", "AGA", "AGG"}, 2: {"TAA", "TAG"}}
+
+
+def _fs_pair(rng, lens=None):
+    """one reference / row pair: columns of residue pairs interrupted by gap runs of every length 0..7 in either row, at
+    the start, inside and at the end; the residues of the row are codons (stops of the three codes, lower case, U,
+    IUPAC codes) after 0..2 loose characters: stop codons in and out of frame"""
+    stream = list("".join(rng.choice("ACGT") for _ in range(rng.choice([0, 0, 1, 2]))) +
+                  "".join(rng.choice(FS_CODONS) for _ in range(12)))
+    ref, row = [], []
+
+    def run(which, n):
+        for _ in range(n):
+            if which == 0:      # gap in the reference: insertion in the row
+                ref.append("-"); row.append(stream.pop(0) if stream else "A")
+            else:               # gap in the row: deletion
+                ref.append(rng.choice("ACGTacgt")); row.append("-")
+    lens = lens or list(range(8))
+    run(rng.randint(0, 1), rng.choice(lens) if rng.random() < 0.6 else 0)
+    for _ in range(rng.randint(0, 4)):
+        for _ in range(rng.randint(1, 7)):
+            ref.append(rng.choice("ACGTacgtN")); row.append(stream.pop(0) if stream else "C")
+        run(rng.randint(0, 1), rng.choice(lens))
+        if rng.random() < 0.2:  # a run in the other row right after: adjacent insertion and deletion
+            run(rng.randint(0, 1), rng.choice(lens))
+    for _ in range(rng.randint(0, 5)):
+        ref.append(rng.choice("ACGT")); row.append(stream.pop(0) if stream else "G")
+    run(rng.randint(0, 1), rng.choice(lens) if rng.random() < 0.5 else 0)
+    return "".join(ref), "".join(row)
+
+
+def _py_complete_from(ref, row):
+    n = 0
+    for k in range(len(ref)):
+        if ref[k] != "-":
+            n += 1
+        if row[k] != "-" and n % 3 == 1:
+            return k
+    return None
+
+
+def _py_first_stop(res, code):
+    for j in range(len(res) // 3):
+        if res[3 * j:3 * j + 3].upper().replace("U", "T") in FS_STOPS[code]:
+            return 3 * (j + 1)
+    return -1
+
+
+def _py_stop_doc(ref, row, flag, code, cols=None):
+    """the documented meaning: first stop codon of the residues of the row (of its complete part with the option);
+    `cols`: only the first `cols` columns are looked at"""
+    if cols is not None:
+        ref, row = ref[:max(cols, 0)], row[:max(cols, 0)]
+    if flag:
+        k = _py_complete_from(ref, row)
+        if k is None:
+            return -1
+        row = row[k:]
+    return _py_first_stop(row.replace("-", ""), code)
+
+
+def _gen_frame(rng, tier):
+    import os
+    every = os.environ.get("C14_FRAME_ALL") == "1"
+    N = 150 if tier == "quick" else 3000
+    for i in range(N):
+        ref, row = _fs_pair(rng, [i % 8] if i % 3 == 0 else None)
+        rows = [("r", ref), ("q", row)]
+        extra = rng.random() < 0.15
+        if extra:   # further rows: the same reference, other rows
+            for j in range(rng.randint(1, 2)):
+                src = list(_fs_pair(rng)[1].replace("-", "")) + ["-"] * len(ref)
+                rng.shuffle(src)
+                rows.append(("x%d" % j, "".join(src[:len(ref)])))
+        flag = rng.randint(0, 1)
+        gappy = "-" in ref or "-" in row
+        yield Case("frameshifts", [1, rows_str(rows), flag], gappy, "frameshifts-multi" if extra else "frameshifts")
+        code = rng.choice([0, 1, 2])
+        L = len(ref)
+        # two documented-meaning deviations of Stops are kept out of the generator (DESIGN 11.4: candidate defects):
+        # the last two columns are never read, and with more than two rows `phase` / `started` are carried over
+        full = [_py_stop_doc(ref, r[1], flag, code) for r in rows[1:]]
+        cut = [_py_stop_doc(ref, r[1], flag, code, L - 2) for r in rows[1:]]
+        if every or (full == cut and (len(rows) == 2 or not flag)):
+            yield Case("stops", [1, rows_str(rows), flag, code], any(p > 0 for p in full),
+                       "stops-multi" if extra else "stops")
+    for code in (-1, 3, 99):
+        yield Case("stops", [1, "r:ATGTAAGG,q:ATGTAAGG", 1, code], True, "stops-unknown-code")
+        yield Case("stops", [1, "_", 0, code], True, "stops-unknown-code")
+    for flag in (0, 1):
+        yield Case("frameshifts", [1, "_", flag], False, "frameshifts-empty")
+        yield Case("stops", [1, "_", flag, 0], False, "stops-empty")
+        yield Case("frameshifts", [1, "r:ATG-A", flag], False, "frameshifts-one-row")
+        yield Case("stops", [1, "r:ATGTAAAA", flag, 0], False, "stops-one-row")
+        yield Case("frameshifts", [0, "r:AR-NDA,q:ARN-DA", flag], True, "frameshifts-protein")
+
+
 def gen(rng, tier):
     for c in _gen_large(rng, tier):
+        yield c
+    for c in _gen_frame(rng, tier):
         yield c
     from driver import multigen
     for c in _gen_core(rng, tier):
